@@ -165,6 +165,9 @@ mod deadline_support;
 #[cfg(feature = "text")]
 mod text;
 mod types;
+#[cfg(similar_verif)]
+#[doc(hidden)]
+pub mod verif;
 
 pub use self::common::*;
 #[cfg(feature = "text")]
